@@ -146,6 +146,21 @@ def run(R):
             "`%s` runs after the replacement has been installed and outside any handler that undoes the patch: when it raises (a spec_set mock refusing an "
             "attribute, a replacement that takes none) the with-statement does not call __exit__, start() does not register the patcher - the original is "
             "never put back" % (q.src(uncovered[0].ast)[:50] if uncovered else ""))
+    # the replacement that _maybe_wrap_new builds for functions / classmethods / staticmethods is asynq(sync_fn=new)(new): the pair
+    # decorator keeps sync_fn exactly as given - its __get__ relies on sync_fn.__get__(owner, cls) binding like the object it was given
+    # (a staticmethod object that the constructor unwraps is bound to the instance on access: the synchronous call gets an extra argument)
+    pair = repo.cls("decorators.AsyncAndSyncPairDecorator")
+    pin = pair.methods.get("__init__")
+    R.need(pin is not None, "anchor vanished: AsyncAndSyncPairDecorator.__init__")
+    sp = [p_ for p_ in q.param_names(pin.node) if "sync" in p_]
+    R.need(sp, "idiom: AsyncAndSyncPairDecorator.__init__ has no sync_fn parameter")
+    rebound = [n for n in q.scope_nodes(pin.node) if isinstance(n, (ast.Assign, ast.AugAssign)) and sp[0] in q.names_stored(n)]
+    stores_ = [n for n in q.scope_nodes(pin.node) if isinstance(n, ast.Assign) and any(q.src(t) == "self.%s" % sp[0] for t in n.targets)]
+    R.check(not rebound and len(stores_) == 1 and q.src(stores_[0].value) == sp[0], "C19.WRAP-NEW", pin.qualname + ":sync_fn", R.site(pin, (rebound or stores_ or [pin.node])[0]),
+            "the pair decorator stores the sync_fn it was given",
+            "the pair decorator changes `%s` before storing it (`%s`): a staticmethod or classmethod object given as the synchronous half no longer binds as such when "
+            "the attribute is read through an instance - the synchronous call of a patched method receives the instance as an extra argument while .asynq/.asyncio "
+            "do not" % (sp[0], q.src((rebound or stores_ or [pin.node])[0])[:50]))
     # wrappers forward and wrap
     for cname, wrap in (("_AsynqWrapper", "ConstFuture"), ("_AsyncioWrapper", None)):
         c = repo.cls("mock_." + cname)
